@@ -33,7 +33,7 @@ MUTANTS = [
                 return result;
             }""",
      "is_more_specific stops at the first position where a is a base"),
-    ("M03", "C01", INC + "policies/vptr_vector.hpp",
+    ("M03", "C10", INC + "policies/vptr_vector.hpp",
      """                vptrs[index] = iter->vptr();
 
                 if constexpr (has_facet<Policy, indirect_vptr>) {
